@@ -108,3 +108,23 @@ Section ArraySlice.
       apply collect_blocks_items; [exact H|]. apply (range_list_in_bounds k); assumption.
   Qed.
 End ArraySlice.
+
+Section ArrayMore.
+  Variable w : Z.
+  Hypothesis w_pos : 0 < w.
+
+  (* pop(i): the item at i, and the Array without it; IndexError on an empty Array or an index out of range; trailing bits untouched *)
+  Theorem pop_is_list_pop its tr i : wfA w its tr ->
+    arr_pop w (mk its tr) i =
+    match pyidx (zlen its) i with
+    | Some k => Ok (nth (Z.to_nat k) its [], mk (list_del its (Z.to_nat k)) tr)
+    | None => Err IndexError
+    end.
+  Proof.
+    intros H. unfold arr_pop. rewrite (arr_len_mk w w_pos its tr H).
+    rewrite (getitem_is_list_index w w_pos its tr i H), (delitem_is_list_deletion w w_pos its tr i H).
+    destruct (zlen its =? 0) eqn:E.
+    - unfold pyidx. destruct (i <? 0) eqn:E1; destruct (_ || _) eqn:E2; try reflexivity; lia.
+    - destruct (pyidx (zlen its) i); reflexivity.
+  Qed.
+End ArrayMore.
